@@ -1065,7 +1065,11 @@ func emit(r *hx.Run, sub uint64, res result) (failed bool) {
 	switch res.c.kind {
 	case "window", "window-block", "window-dup", "two-stops":
 		// the same forced schedule exists as a Lean witness; per participant the model's trace must be this one
-		r.Line(fmt.Sprintf("model %s q=%d p=%d", res.c.kind, res.c.q, res.c.p), projections(res.ev, res.c.p, max(1, res.c.ns)))
+		mq := res.c.q
+		if res.c.uq == 1 {
+			mq = 0 // the Lean witness schedule for the unbuffered queue (hand-off instead of send + receive)
+		}
+		r.Line(fmt.Sprintf("model %s q=%d p=%d", res.c.kind, mq, res.c.p), projections(res.ev, res.c.p, max(1, res.c.ns)))
 	}
 	r.Count("kind:" + res.c.kind)
 	if res.c.uq == 1 {
@@ -1284,13 +1288,16 @@ func main() {
 	forced = forced[:0]
 	for i := 0; i < 12*r.Scale; i++ {
 		rng, s := r.Rng.Fork()
-		forced = append(forced, cfg{kind: "window", q: 1 + i%4, b: 1 + (i/4)%4, t: timeouts[i%3], tk: pickTk(rng) % 4, p: 1, o: 1, n: 1, seed: s})
+		forced = append(forced, cfg{kind: "window", q: 1 + i%4, b: 1 + (i/4)%4, t: timeouts[i%3], tk: pickTk(rng) % 4, p: 1, o: 1, n: 1,
+			uq: b2i(i%3 == 2), seed: s})
 		rng, s = r.Rng.Fork()
-		forced = append(forced, cfg{kind: "window-dup", q: 1 + i%4, b: 1 + (i/4)%4, t: timeouts[i%3], tk: pickTk(rng) % 4, p: 2, o: 1, n: 1, seed: s})
+		forced = append(forced, cfg{kind: "window-dup", q: 1 + i%4, b: 1 + (i/4)%4, t: timeouts[i%3], tk: pickTk(rng) % 4, p: 2, o: 1, n: 1,
+			uq: b2i(i%3 == 1), seed: s})
 	}
 	for i := 0; i < 12*r.Scale; i++ {
 		rng, s := r.Rng.Fork()
-		forced = append(forced, cfg{kind: "two-stops", q: 1 + i%4, b: 1 + (i/4)%4, t: timeouts[i%3], tk: pickTk(rng) % 4, p: 1, o: 1, n: 1, ns: 2, seed: s})
+		forced = append(forced, cfg{kind: "two-stops", q: 1 + i%4, b: 1 + (i/4)%4, t: timeouts[i%3], tk: pickTk(rng) % 4, p: 1, o: 1, n: 1, ns: 2,
+			uq: b2i(i%3 == 0), seed: s})
 	}
 	for q := 1; q <= 2; q++ {
 		_, s := r.Rng.Fork()
